@@ -5,7 +5,7 @@ machinery. usage: run_neutral.py [id ...]   (patches live in /verif/neutral/<id>
 import json, os, re, subprocess, sys
 
 VERIF = os.path.dirname(os.path.dirname(os.path.abspath(__file__)))
-REPO = "/repo"
+REPO = os.environ.get("WWV_REPO", "/repo")   # a dev worktree may be used instead of /repo
 
 
 def sh(cmd, cwd=VERIF):
@@ -17,6 +17,9 @@ def main():
     base = os.path.join(VERIF, "neutral")
     ids = [a for a in sys.argv[1:] if not a.startswith("--")] or sorted(os.listdir(base))
     props = [c["property_id"] for c in json.load(open(os.path.join(VERIF, "MANIFEST.json")))["checks"]]
+    only = [a[8:].split(",") for a in sys.argv[1:] if a.startswith("--props=")]
+    if only:
+        props = only[0]
     rc, out = sh("git status --porcelain", REPO)
     if out.strip():
         print("refusing: /repo has uncommitted changes")
